@@ -151,21 +151,37 @@ func init() {
 		Rule: "every (ok, err) pair of ValidateHOTP / ValidateTOTP / ValidateOCRA over reduced C03, C04 and C06 workloads (accepting and rejecting cases; failure causes wrong code, wrong length, undecodable secret, unsupported hash/digits, refused skew, unusable suite, inadmissible input) must be (true,nil) or (false,error); every error text (all Unwrap levels) of those and of failing Generate*/DecodeSecret/ParseOTPAuthURL/Generate*URL calls is scanned for the secret (as supplied, canonical, lower-case, raw bytes, hex; keys >= 10 bytes) and for any code of the acceptance window (>= 6 digits); " +
 			"distinct_nontrivial counts distinct validation cases whose (ok, err) pair was judged plus distinct error texts scanned",
 		Run: func(c *Ctx) {
-			var hs []vhotpCase
-			c03Cases(c, func(k vhotpCase) { hs = append(hs, k) })
-			parallelJudge(c, hs, judgeVHOTP)
-			var ts []vtotpCase
-			c04Cases(c, func(k vtotpCase) { ts = append(ts, k) })
-			ts = append(ts, refusedSkewCases(c, []uint64{11, 100, 10000})...)
-			parallelJudge(c, ts, judgeVTOTP)
-			var os []ocraVCase
-			c06Cases(c, func(k ocraVCase) { os = append(os, k) })
-			parallelJudge(c, os, judgeOCRAV)
+			// reduced versions of the C03 / C04 / C06 workloads (every 4th case)
+			n3, n4, n6 := 0, 0, 0
+			bh := newBatcher(c, judgeVHOTP, 0)
+			c03Cases(c, func(k vhotpCase) {
+				if n3++; n3%4 == 0 {
+					bh.add(k)
+				}
+			})
+			bh.flush()
+			bt := newBatcher(c, judgeVTOTP, 0)
+			c04Cases(c, func(k vtotpCase) {
+				if n4++; n4%4 == 0 {
+					bt.add(k)
+				}
+			})
+			for _, k := range refusedSkewCases(c, []uint64{11, 100, 10000}) {
+				bt.add(k)
+			}
+			bt.flush()
+			bo := newBatcher(c, judgeOCRAV, 0)
+			c06Cases(c, func(k ocraVCase) {
+				if n6++; n6%4 == 0 {
+					bo.add(k)
+				}
+			})
+			bo.flush()
 			// explicit failure-cause sweep for HOTP/TOTP validation
 			rng := c.RNG.Fork(13)
 			var fh []vhotpCase
 			var ft []vtotpCase
-			for i := 0; i < c.N(300, 5000); i++ {
+			for i := 0; i < c.N(3000, 50000); i++ {
 				key := rng.Bytes(10 + rng.Intn(40))
 				enc := ref.Base32EncodeNoPad(key)
 				d := 6 + rng.Intn(5)
@@ -200,7 +216,7 @@ func init() {
 			parallelJudge(c, ft, judgeVTOTP)
 			// failing calls of the other operations
 			var gf []genFailCase
-			for i := 0; i < c.N(300, 5000); i++ {
+			for i := 0; i < c.N(3000, 50000); i++ {
 				key := rng.Bytes(10 + rng.Intn(40))
 				enc := ref.Base32EncodeNoPad(key)
 				badSecret := enc[:3] + "1" + enc[4:]
@@ -220,7 +236,7 @@ func init() {
 				c.R.Inconclusive("ValidateOTPWasm (bool, error) pairs: the js/wasm sources could not be compiled natively in this run (C20 still checks the binding's verdicts under Node)")
 			} else {
 				var ws []wasmVCase
-				for i := 0; i < c.N(2000, 50000); i++ {
+				for i := 0; i < c.N(20000, 500000); i++ {
 					key := rng.Bytes(10 + rng.Intn(40))
 					d, a := []int{6, 8, 9, 10}[rng.Intn(4)], rng.Intn(3)
 					ctr := gen.Counter(rng)
